@@ -1,7 +1,7 @@
 #!/bin/bash
 # usage: run_neutral.sh <ID> : applies each /tmp/neutralout/<ID>/k/patch.diff to /repo, runs the property's check, reverts.
 id=$1
-for d in /tmp/neutralout/$id/*/; do
+for d in ${NEUTRAL_ROOT:-/tmp/neutralout}/$id/*/; do
   k=$(basename $d)
   git -C /repo apply $d/patch.diff 2>/dev/null || git -C /repo apply -C1 $d/patch.diff || { echo "APPLY FAILED $id/$k"; continue; }
   out=$(./bin/tmverif -prop ${2:-$id} -no-evidence 2>&1)
